@@ -167,6 +167,23 @@ func genCase(rng *rand.Rand, n int, h6, race bool) Case {
 	return c
 }
 
+// genDirected builds a directed full-buffer case (see oracle.go): 1-2 senders, one parked receiver, receive
+// buffer 1-2, no proxy, no H6, generous write timeout so that scheduling stalls cannot explain an ack timeout;
+// every sender commits buffer+3 one-message sections.
+func genDirected(rng *rand.Rand, n int) Case {
+	c := Case{N: n, Seed: rng.Int63(), Kind: "tcp", Directed: "fullbuf", NS: 1 + (n/2)%2, NR: 1,
+		ChanSize: 1 + n%2, ReadMs: 20, WriteMs: pick(rng, 3000, 4000, 5000), DialMs: 2000}
+	for s := 0; s < c.NS; s++ {
+		var sp SenderPlan
+		for i := 0; i < c.ChanSize+3; i++ {
+			sp.Sections = append(sp.Sections, SectionPlan{Sends: []int{0}})
+		}
+		c.Senders = append(c.Senders, sp)
+	}
+	c.Receivers = []ReceiverPlan{{Seed: rng.Int63(), MaxK: 1}}
+	return c
+}
+
 // witness is what a replay file holds: the generated case, the recorded history, the oracle's finding.
 type witness struct {
 	Case    Case    `json:"case"`
@@ -241,6 +258,11 @@ func main() {
 	for i := range cases {
 		cases[i] = genCase(rng, i, true, raceBin != "" && i%6 == 5)
 	}
+	drng := r.Rand("directed")
+	for k := r.Pick(3, 16); k > 0; k-- {
+		cases = append(cases, genDirected(drng, len(cases)))
+	}
+	nCases = len(cases)
 	scratch := common.Scratch("c06")
 	defer os.RemoveAll(scratch)
 
@@ -290,7 +312,7 @@ func main() {
 		if os.Getenv("VERIF_C06_DEBUG") != "" {
 			fmt.Printf("debug: case %d %s %dx%d proxy=%v race=%v pad=%d chan=%d r/w=%d/%d wall=%.1fs events=%d\n", i, c.Kind, c.NS, c.NR, c.Proxy, c.Race, c.Pad, c.ChanSize, c.ReadMs, c.WriteMs, res.Wall.Seconds(), len(evs))
 		}
-		label := fmt.Sprintf("case %d (%s %dx%d proxy=%v race=%v)", i, c.Kind, c.NS, c.NR, c.Proxy, c.Race)
+		label := fmt.Sprintf("case %d (%s %dx%d proxy=%v race=%v %s)", i, c.Kind, c.NS, c.NR, c.Proxy, c.Race, c.Directed)
 		if c.Race {
 			rs := raceSigs(dir)
 			mu.Lock()
@@ -329,6 +351,21 @@ func main() {
 			return
 		}
 		fs, st, conclusive, problems := judge(c, evs)
+		if c.Directed != "" && hasKey(fs, "commit-blocked-by-full-receive-buffer") {
+			// confirm by running the case once more: a freak multi-second stall of the handler goroutine must not
+			// be reported as a held-back ack
+			dir2 := filepath.Join(scratch, fmt.Sprintf("case-%d-confirm", i))
+			_ = os.MkdirAll(dir2, 0o755)
+			defer os.RemoveAll(dir2)
+			ev2 := filepath.Join(dir2, "events.jsonl")
+			res2 := common.RunChild(exe, "case", dir2, env, time.Duration(r.Pick(100, 240))*time.Second, casePath, ev2)
+			evs2, _, _ := readEvents(ev2)
+			fs2, _, _, _ := judge(c, evs2)
+			if res2.TimedOut || res2.ExitCode != 0 || !hasKey(fs2, "commit-blocked-by-full-receive-buffer") {
+				r.Inconclusive(label + ": commit blocked by a full receive buffer in one run, not confirmed by the re-run")
+				return
+			}
+		}
 		for _, f := range fs {
 			r.Report(f.Key, f.Desc, witness{Case: *c, Finding: f, Events: evs})
 		}
@@ -354,7 +391,7 @@ func main() {
 		}
 		samples.Add(map[string]any{
 			"case": map[string]any{"n": c.N, "kind": c.Kind, "senders": c.NS, "receivers": c.NR, "chan_size": c.ChanSize,
-				"read_ms": c.ReadMs, "write_ms": c.WriteMs, "proxy": c.Proxy, "pad_bytes": c.Pad, "delayed_links": len(c.Links), "race": c.Race, "mbox": c.Mbox,
+				"read_ms": c.ReadMs, "write_ms": c.WriteMs, "proxy": c.Proxy, "pad_bytes": c.Pad, "delayed_links": len(c.Links), "race": c.Race, "mbox": c.Mbox, "directed": c.Directed,
 				"first_sections_of_sender_0": firstN(c.Senders[0].Sections, 4), "receiver_0": c.Receivers[0]},
 			"observed":        st,
 			"findings":        len(fs),
@@ -404,6 +441,15 @@ func excerpt(evs []Ev, n int) []Ev {
 	}
 	mid := len(evs) / 2
 	return evs[mid : mid+n]
+}
+
+func hasKey(fs []Finding, suffix string) bool {
+	for _, f := range fs {
+		if strings.HasSuffix(f.Key, ":"+suffix) {
+			return true
+		}
+	}
+	return false
 }
 
 func firstN(s []SectionPlan, n int) []SectionPlan {
